@@ -83,6 +83,8 @@ class AvroWriter(AbstractWriter):
         self.writer.flush()
 
     def close(self) -> None:
+        if self.fp:
+            self.flush()
         if self.fp and not is_stdout(self.fp):
             self.fp.close()
         self.fp = None
